@@ -37,6 +37,7 @@ func TestVerifC04Dedup(t *testing.T) {
 		delays  []int            // milliseconds the proxy takes to answer list call i
 		ups     map[string][]int // outcome of successive response-upload attempts per ID
 		sizes   map[string]int   // response size per ID (default 10)
+		kinds   []int            // outcome kind of list call i (default OK)
 	}
 	var hs []hist
 	mk := func(prefix string, ns ...[]int) [][]string {
@@ -118,6 +119,10 @@ func TestVerifC04Dedup(t *testing.T) {
 	// re-listings spread over time (far longer than -proxy-timeout, set to 150 ms for this test): the window is about
 	// how many other IDs have been seen since, not about how long ago
 	hs = append(hs, hist{name: "relisted-after-pauses", lists: mk("h9", []int{1, 2}, []int{1}, []int{2, 1}, []int{1, 2, 3}), delays: []int{0, 400, 400, 400}})
+	// pending-list calls that fail (5xx, transport error, unparsable reply) between re-listings of the same IDs, as the
+	// App Engine proxy re-lists every request that has no response yet: what was dispatched before the failure stays dispatched
+	hs = append(hs, hist{name: "relisted-across-failed-polls", lists: mk("h10", []int{1, 2}, []int{}, []int{1, 2}, []int{}, []int{2, 1, 3}, []int{}, []int{}, []int{1, 2, 3, 4}),
+		kinds: []int{verifOK, verif500, verifOK, verifNetErr, verifOK, verifGarbage, verif404, verifOK}})
 	// response-upload failures after the backend has already executed the request: transport errors and 5xx,
 	// as many as the upload retries absorb and more, small responses and ones beyond the replay buffer
 	{
@@ -183,6 +188,7 @@ func TestVerifC04Dedup(t *testing.T) {
 			fp := newVerifFakeProxy()
 			fp.lists = h.lists
 			fp.listDelay = h.delays
+			fp.listKinds = h.kinds
 			ids := map[string]bool{}
 			for _, l := range h.lists {
 				for _, id := range l {
